@@ -494,6 +494,9 @@ def run(facts, rep, tier):
              "reference must fail, not copy and delete another note.")
     from . import ids
     ids.rule_no_default_ids(facts, rep, "C09-R8")
+    rep.rule("C09-R9", "= C10-R9: everything else in the source note is unchanged - the edit of an extract / inline keeps the note's front matter.")
+    from . import frontmatter
+    frontmatter.rule_updates_carry_front_matter(facts, rep, "C09-R9")
 
 class _Sub:
     """Forwards to a Report but keeps only instances located in the refactoring actions."""
